@@ -27,6 +27,7 @@ type Op13 struct {
 	Burst  int    `json:"burst,omitempty"` // datagrams in an inbound burst
 	Via    string `json:"via,omitempty"`   // inbound: data | chan | unknown-chan
 	Writers int   `json:"writers,omitempty"` // concurrent writers to the same peer
+	Empty   bool  `json:"empty,omitempty"`   // inbound: the peer's datagram is empty (a zero-length payload is a datagram too)
 }
 
 // C13Case is the replay format.
@@ -488,6 +489,9 @@ func runC13Inner(c *C13Case) (res c13Result) { //nolint:cyclop,gocyclo,maintidx
 			for b := 0; b < max(op.Burst, 1); b++ {
 				seq++
 				payload := append([]byte(fmt.Sprintf("i%05d:", seq)), bytes.Repeat([]byte{byte(seq)}, op.N%64)...)
+				if op.Empty && b%2 == 0 {
+					payload = []byte{}
+				}
 				srv.mu.Lock()
 				num, has := srv.peerChan[pa.String()]
 				isBound := has && srv.bound[num] == pa.String()
@@ -720,6 +724,7 @@ func genC13(rt *rapid.T) *C13Case {
 			op.N = rapid.IntRange(0, 60).Draw(rt, "n")
 			op.Burst = rapid.SampledFrom([]int{1, 1, 2, 3, 50, 1023, 1024, 1025, 3000}).Draw(rt, "burst")
 			op.Via = rapid.SampledFrom([]string{"data", "chan", "chan", "unknown-chan"}).Draw(rt, "via")
+			op.Empty = rapid.IntRange(0, 4).Draw(rt, "empty") == 0
 		case "deadline":
 			op.N = rapid.SampledFrom([]int{1, 50, 1000, 30000}).Draw(rt, "ms")
 		case "sleep":
